@@ -31,7 +31,11 @@ theorem C19_store_tracks_innermost (env : Env) (ops : List Op) (h : disciplined 
 
 /-- **a block puts back what was there**: after any disciplined history `pre`, a `with patcher:` / decorated call
     whose `__enter__` succeeded and whose body closed what it opened restores the store it found - whether it is
-    left normally or by exception (`exc` is arbitrary), and whatever else is patched around it -/
+    left normally or by exception (`exc` is arbitrary), and whatever else is patched around it.
+    Hypotheses: `hd` (discipline) and `hbal` / `hsk2` (the body closed what it opened) are needed - witnesses
+    `C19_block_restores_balance_necessary` (`hbal`), `C19_block_restores_skip_necessary` (`hsk2`).  `hsk` and `hent` only select the case of interest (the block really runs:
+    `pre` does not end inside a skipped body, `__enter__` succeeded); they are proof-technical, no counterexample is
+    known without them (when the block does not run the store is not touched at all). -/
 theorem C19_block_restores (env : Env) (pre body : List Op) (p : Nat) (exc : Bool)
     (hd : disciplined env (pre ++ .enter p :: body) = true)
     (hsk : (final env pre).skip = none)
@@ -76,17 +80,43 @@ theorem C19_restore_stopall (env : Env) (cs : List (Nat × PSpec)) (ps : List Na
     by new_callable, `@asynq()` function (which binds like the function it wraps) - reached through a module, a class or an
     instance, every one of the four calling conventions
     runs the replacement exactly once with the descriptor prefix followed by the caller's arguments and keyword
-    arguments, and hands back what the replacement returned or raised; hence all four agree -/
-theorem C19_conventions_agree (p n : Nat) (s : PSpec) (pt : Patcher) (d : Defaults) (hc : construct d p s = .ok pt) (via : Via)
+    arguments, and hands back what the replacement returned or raised; hence all four agree.
+    PARTIAL: `hm` excludes the one exposed combination - a function / classmethod / staticmethod object as the
+    replacement, reached through a class or an instance, whose body is sensitive to asyncio mode (it makes a
+    synchronous asynq call); there the code does NOT agree: `C19_conventions_disagree_counterexample`. -/
+theorem C19_conventions_agree_partial (p n : Nat) (s : PSpec) (pt : Patcher) (d : Defaults) (hc : construct d p s = .ok pt) (via : Via)
     (args : List Nat) (kw : List (Nat × Nat)) (pre : List Nat) (hpre : expectedPrefix s.repl via = some pre)
-    (c c' : Conv) :
+    (hm : s.modeExposed via = false) (c c' : Conv) :
     conv (installedObj pt p n) via c args kw = conv (installedObj pt p n) via c' args kw ∧
     (conv (installedObj pt p n) via c args kw).out = s.behav.out ∧
     (conv (installedObj pt p n) via c args kw).calls =
       [{ callee := expectedCallee p s (installedObj pt p n).tok, args := pre ++ args, kw := kw }] := by
-  rw [construct_inv d p s pt hc, conv_installed p n s via c args kw pre hpre,
-    conv_installed p n s via c' args kw pre hpre]
+  rw [construct_inv d p s pt hc, conv_installed p n s via c args kw pre hpre hm,
+    conv_installed p n s via c' args kw pre hpre hm]
   exact ⟨rfl, rfl, rfl⟩
+
+/-- a plain function that makes a synchronous asynq call and returns 5, given to patcher 0 -/
+def fakeSpec : PSpec :=
+  { target := 0, repl := .func, create := false, autospecNone := false, viaObject := false, behav := .syncCall 5 }
+/-- what `__enter__` of that patcher installs: the `asynq(sync_fn=fake)(fake)` pair, decorated -/
+def fakeObj : Obj := installedObj { spec := fakeSpec, new := maybeWrapNew 0 fakeSpec } 0 0
+
+/-- the fake of the former finding (a plain function that makes a synchronous asynq call, on a method reached through
+    an instance): all four conventions return its value, with the same single run and the same arguments -/
+theorem C19_conventions_agree_fake :
+    fakeSpec.modeExposed .inst = false ∧
+    (∀ c ∈ Conv.all, conv fakeObj .inst c [1] [] =
+      { out := .ok 5, calls := [{ callee := .given 0, args := [instTok, 1], kw := [] }] }) := by
+  decide
+
+/-- **conventions agree, without exception**: `hm` of `C19_conventions_agree_partial` is true of every patcher -/
+theorem C19_conventions_agree (p n : Nat) (s : PSpec) (pt : Patcher) (d : Defaults) (hc : construct d p s = .ok pt) (via : Via)
+    (args : List Nat) (kw : List (Nat × Nat)) (pre : List Nat) (hpre : expectedPrefix s.repl via = some pre)
+    (c c' : Conv) :
+    conv (installedObj pt p n) via c args kw = conv (installedObj pt p n) via c' args kw ∧
+    (conv (installedObj pt p n) via c args kw).out = s.behav.out :=
+  have h := C19_conventions_agree_partial p n s pt d hc via args kw pre hpre (by simp [PSpec.modeExposed, pairAsyncioInMode]) c c'
+  ⟨h.1, h.2.1⟩
 
 /-- `__enter__` on a target that exists (or with create=True) installs the object in the host, returns that very
     object, and has put the `.asynq` / `.asyncio` wrappers on it exactly when it is callable -/
@@ -153,7 +183,8 @@ theorem C19_shared_replacement_same_object (p q n : Nat) (s : PSpec) (pt : Patch
     simp [installedObj, maybeWrapNew, hr, Repl.desc?, Repl.isCallable, Repl.acceptsAttrs, Shape.callable, Obj.tok,
       PSpec.newId, hs]
   · have hpre : expectedPrefix s.repl via = some [] := by rw [hr]; rfl
-    rw [(C19_conventions_agree p n s pt d hc via args kw [] hpre c c).2.2]
+    have hm : s.modeExposed via = false := by simp [PSpec.modeExposed, hr, Repl.desc?]
+    rw [(C19_conventions_agree_partial p n s pt d hc via args kw [] hpre hm c c).2.2]
     simp [expectedCallee, hr, PSpec.newId, hs]
 
 /-- `__exit__` of an entered patcher never swallows the exception that ends the block, and forgets its saved state
@@ -166,33 +197,76 @@ theorem C19_exception_propagates (env : Env) (st : State) (pt : Patcher) (p : Na
   simp [h, upd]
 
 /-- **C19 as a whole, for arbitrary signature defaults**: for every environment and every history of operations (well
-    nested or not) in which no patcher uses new_callable while the `autospec` that reaches `_patch` is not None, the
-    observations of the model are accepted by the observer `spec` - the same Boolean function the check evaluates
-    on the observations of the real implementation. -/
+    nested or not) in which (`hc`) no patcher uses new_callable while the `autospec` that reaches `_patch` is not None and
+    (`hm`) no patcher is a mode-sensitive function / classmethod / staticmethod replacement in an environment where
+    something is reached through a class or an instance, the observations of the model are accepted by the observer
+    `spec` - the same Boolean function the check evaluates on the observations of the real implementation. -/
 theorem C19_spec_holds_partial (env : Env) (ops : List Op)
-    (hc : ops.all (Op.constructible env.defaults) = true) :
+    (hc : ops.all (Op.constructible env.defaults) = true) (hm : ops.all (Op.modeSafe env) = true) :
     spec env (run env ops) = true := by
-  obtain ⟨w', h⟩ := watchRun_ok env ops hc watchInit (init env) (Or.inr (rel_init env))
-  simp [spec, run, h]
-
-/-- once both signatures default `autospec=None` (the harness reads the defaults from the code on every run), the
-    hypothesis above is true of every history: C19 holds without exception -/
-theorem C19_spec_holds_if_autospec_defaults_none (env : Env) (ops : List Op)
-    (h1 : env.defaults.patchAutospecNone = true) (h2 : env.defaults.objectAutospecNone = true) :
-    spec env (run env ops) = true := by
-  apply C19_spec_holds_partial
-  rw [List.all_eq_true]
-  intro op _
-  cases op <;> simp [Op.constructible, PSpec.constructible, PSpec.autospecIsNone, h1, h2]
+  obtain ⟨w', h⟩ := watchRun_ok env ops hc hm watchInit (init env) (Or.inr (rel_init env))
+  simp only [spec, run, initPeeks_eq, h]
 
 /-- **C19 as a whole, for the code as it is** (`Defaults.current`: both signatures default `autospec=None`, which the
-    harness re-reads from the code on every run): for EVERY environment of targets and EVERY history of operations,
-    well nested or not, the observer accepts the observations of the model.  No hypothesis on the history. -/
-theorem C19_spec_holds (env : Env) (ops : List Op) (hd : env.defaults = Defaults.current) :
-    spec env (run env ops) = true :=
-  C19_spec_holds_if_autospec_defaults_none env ops (by rw [hd]; rfl) (by rw [hd]; rfl)
+    harness re-reads from the code on every run, so `hc` above is true of every history): for EVERY environment of
+    targets and EVERY history of operations, well nested or not, that satisfies `hm`, the observer accepts the
+    observations of the model.  `hm` is necessary: `C19_asyncio_mode_counterexample`. -/
+theorem C19_spec_holds_current_partial (env : Env) (ops : List Op) (hd : env.defaults = Defaults.current)
+    (hm : ops.all (Op.modeSafe env) = true) :
+    spec env (run env ops) = true := by
+  apply C19_spec_holds_partial env ops _ hm
+  rw [List.all_eq_true]
+  intro op _
+  cases op <;> simp [Op.constructible, PSpec.constructible, PSpec.autospecIsNone, hd, Defaults.current]
 
-/-- **necessity of the hypothesis of `C19_spec_holds_partial`** (a regression witness, NOT a statement about today's
+/-- ... in particular WITHOUT any hypothesis on the history when every target is a module-level function / attribute
+    (nothing is reached through a class or an instance): there a mode-sensitive replacement agrees as well -/
+theorem C19_spec_holds_module_level (env : Env) (ops : List Op) (hd : env.defaults = Defaults.current)
+    (hv : env.targets.all (fun ts => ts.via == .plain) = true) :
+    spec env (run env ops) = true := by
+  apply C19_spec_holds_current_partial env ops hd
+  rw [List.all_eq_true]
+  intro op _
+  cases op <;> simp [Op.modeSafe, PSpec.modeSafe, hv]
+
+/-- the replacement of this patcher does not look at asyncio mode (it returns or raises, whatever the kind of object) -/
+def Op.modeInsensitive : Op → Bool
+  | .construct _ s => !s.behav.modeSensitive
+  | _ => true
+
+/-- ... and without any hypothesis on the environment when no replacement makes a synchronous asynq call -/
+theorem C19_spec_holds_mode_insensitive (env : Env) (ops : List Op) (hd : env.defaults = Defaults.current)
+    (hb : ops.all Op.modeInsensitive = true) :
+    spec env (run env ops) = true := by
+  apply C19_spec_holds_current_partial env ops hd
+  rw [List.all_eq_true] at hb ⊢
+  intro op hop
+  have := hb op hop
+  cases op with
+  | construct p s =>
+    simp only [Op.modeInsensitive, Bool.not_eq_true'] at this
+    simp [Op.modeSafe, PSpec.modeSafe, this]
+  | _ => rfl
+
+/-- one `@asynq()` method, reached through an instance -/
+def fakeEnv : Env := { targets := [{ kind := .asyncFn .func, host := .loc, via := .inst }] }
+/-- `with patch("pkg.Svc.method", fake): svc.method(1) ...` -/
+def fakeOps : List Op := [.construct 0 fakeSpec, .enter 0, .call 0 [1] [], .exit 0 false]
+
+/-- **C19 as a whole, for the code as it is, without any hypothesis on the history or the environment** -/
+theorem C19_spec_holds (env : Env) (ops : List Op) (hd : env.defaults = Defaults.current) :
+    spec env (run env ops) = true := by
+  apply C19_spec_holds_current_partial env ops hd
+  rw [List.all_eq_true]
+  intro op _
+  cases op <;> simp [Op.modeSafe, PSpec.modeSafe, pairAsyncioInMode]
+
+/-- the history of the former finding is accepted -/
+theorem C19_asyncio_mode_repaired :
+    spec fakeEnv (run fakeEnv fakeOps) = true ∧ (final fakeEnv fakeOps).store = fakeEnv.initStore :=
+  ⟨C19_spec_holds fakeEnv fakeOps rfl, C19_restore _ _ (by decide)⟩
+
+/-- **necessity of the hypothesis `hc` of `C19_spec_holds_partial`** (a regression witness, NOT a statement about today's
     tree): with the signatures of asynq 1.6 (`autospec=False` in `patch` / `patch.object`, repaired by 60e77e0)
     `asynq.mock.patch(target, new_callable=f)` cannot even be constructed - `_patch.__init__` rejects `new_callable`
     together with any `autospec is not None` - and the observer rejects the history; witness: one module function,
@@ -306,8 +380,11 @@ theorem C19_result_object_untouched (p n : Nat) (s : PSpec) (pt : Patcher) (d : 
     (hpre : expectedPrefix s.repl via = some pre) (c : Conv) :
     (∀ r k, s.behav = .ret r k → (conv (installedObj pt p n) via c args kw).out = .ok r k) ∧
     (∀ e k, s.behav = .raise e k → (conv (installedObj pt p n) via c args kw).out = .raised (.user e k)) := by
-  have h := (C19_conventions_agree p n s pt d hc via args kw pre hpre c c).2.1
-  exact ⟨fun r k hb => by rw [h, hb]; rfl, fun e k hb => by rw [h, hb]; rfl⟩
+  refine ⟨fun r k hb => ?_, fun e k hb => ?_⟩
+  · have hm : s.modeExposed via = false := by simp [PSpec.modeExposed, hb, Behav.modeSensitive]
+    rw [(C19_conventions_agree_partial p n s pt d hc via args kw pre hpre hm c c).2.1, hb]; rfl
+  · have hm : s.modeExposed via = false := by simp [PSpec.modeExposed, hb, Behav.modeSensitive]
+    rw [(C19_conventions_agree_partial p n s pt d hc via args kw pre hpre hm c c).2.1, hb]; rfl
 
 /-- **re-binding a name touches no host**: `pkg.Owner = Other` changes what the name refers to and nothing else -
     every host's `__dict__`, every open patch and every patcher object stay as they are (inside a skipped block body
@@ -358,13 +435,45 @@ theorem C19_asynq_function_replacement (p n : Nat) (s : PSpec) (pt : Patcher) (d
     conv (installedObj pt p n) via c args kw =
       { out := s.behav.out, calls := [{ callee := s.newId p, args := (bindPrefix d via).getD [] ++ args, kw := kw }] } := by
   have hpre : expectedPrefix s.repl via = some ((bindPrefix d via).getD []) := by rw [hr]; rfl
-  obtain ⟨_, h2, h3⟩ := C19_conventions_agree p n s pt dflt hc via args kw _ hpre c c
+  have hm : s.modeExposed via = false := by simp [PSpec.modeExposed, hr, Repl.desc?]
+  obtain ⟨_, h2, h3⟩ := C19_conventions_agree_partial p n s pt dflt hc via args kw _ hpre hm c c
   refine ⟨?_, ?_⟩
   · rw [C19_installed_object p n s pt dflt hc]; simp [expectedTok, hr]
   · have hcal : expectedCallee p s (installedObj pt p n).tok = s.newId p := by simp [expectedCallee, hr]
     rw [hcal] at h3
     cases hcv : conv (installedObj pt p n) via c args kw with
     | mk o cs => rw [hcv] at h2 h3; simp only [] at h2 h3; rw [h2, h3]
+
+/-- `C19_block_restores` needs `hbal`: a body that starts a patch of ANOTHER target and does not stop it is a
+    disciplined history satisfying every other hypothesis (`hd`, `hsk`, `hent`, `hsk2`), and after the block the store
+    is not the one the block found (target 1 holds the started replacement) -/
+theorem C19_block_restores_balance_necessary :
+    let env : Env := { targets := [{ kind := .asyncFn .func, host := .loc, via := .plain },
+                                   { kind := .asyncFn .func, host := .loc, via := .plain }] }
+    let mk : Nat → PSpec := fun t => { target := t, repl := .default, create := false, autospecNone := false,
+                                        viaObject := false, behav := .ret 5 }
+    let pre : List Op := [.construct 0 (mk 0), .construct 1 (mk 1)]
+    let body : List Op := [.start 1]
+    disciplined env (pre ++ .enter 0 :: body) = true ∧ (final env pre).skip = none ∧
+    (final env (pre ++ [.enter 0])).skip = none ∧ (final env (pre ++ .enter 0 :: body)).skip = none ∧
+    ((final env (pre ++ .enter 0 :: body)).stack != (final env (pre ++ [.enter 0])).stack) = true ∧
+    (final env (pre ++ .enter 0 :: body ++ [.exit 0 false])).store 1 ≠ (final env pre).store 1 := by
+  decide
+
+/-- `C19_block_restores` needs `hsk2`: a body that ends inside a block whose own `__enter__` failed (here: a patcher that
+    was never constructed, its block not closed) satisfies every other hypothesis, `hbal` included; the `.exit` that follows
+    belongs to the skipped body, so the replacement stays -/
+theorem C19_block_restores_skip_necessary :
+    let env : Env := { targets := [{ kind := .asyncFn .func, host := .loc, via := .plain }] }
+    let pre : List Op := [.construct 0 { target := 0, repl := .default, create := false, autospecNone := false,
+                                          viaObject := false, behav := .ret 5 }]
+    let body : List Op := [.enter 7]
+    disciplined env (pre ++ .enter 0 :: body) = true ∧ (final env pre).skip = none ∧
+    (final env (pre ++ [.enter 0])).skip = none ∧
+    ((final env (pre ++ .enter 0 :: body)).stack == (final env (pre ++ [.enter 0])).stack) = true ∧
+    (final env (pre ++ .enter 0 :: body)).skip = some (7, 0) ∧
+    (final env (pre ++ .enter 0 :: body ++ [.exit 0 false])).store 0 ≠ (final env pre).store 0 := by
+  decide
 
 /-! ### the duplicate-freeness hypotheses of the two family theorems are necessary -/
 
@@ -567,6 +676,101 @@ example : spec env3
      { op := .call 0 [1] [], res := .called [okG, noAttr, noAttr, noAttr], peeks := [some tG] }] = false := by
   decide
 
+/-! ### a replacement that makes a synchronous asynq call (second audit, N2) -/
+private def envM : Env := { targets := [{ kind := .asyncFn .func, host := .loc, via := .plain }] }
+private def okF (pre : List Nat) : ConvRes := { out := .ok 5, calls := [{ callee := .given 0, args := pre ++ [1], kw := [] }] }
+private def tP : Tok := { id := .made 0 0, tag := .pair }
+/-- on a module function all four conventions agree for it (`C19_spec_holds_module_level` applies: no hypothesis on the
+    history) ... -/
+example : spec envM (run envM fakeOps) = true := C19_spec_holds_module_level envM fakeOps rfl (by decide)
+example : ((run envM fakeOps).getD 2 default).res = .called (List.replicate 4 (okF [])) := by decide
+/-- ... `C19_conventions_agree_partial` is not vacuous for such a body (hypothesis `hm` holds through a module) ... -/
+example := C19_conventions_agree_partial 0 0 fakeSpec { spec := fakeSpec, new := maybeWrapNew 0 fakeSpec } Defaults.current rfl
+  .plain [1] [] [] rfl (by decide) .sync .asyncio
+/-- ... and so is the mode-insensitive corollary (a history with every other replacement kind on a method) -/
+example : spec fakeEnv (run fakeEnv [.construct 0 { fakeSpec with behav := .ret 5 }, .enter 0, .call 0 [1] [], .exit 0 true]) = true :=
+  C19_spec_holds_mode_insensitive fakeEnv _ rfl (by decide)
+/-- through an instance all four agree as well -/
+example : ((run fakeEnv fakeOps).getD 2 default).res = .called (List.replicate 4 (okF [instTok])) := by decide
+/-- ... the observer REJECTS exactly that, ACCEPTS four agreeing outcomes (what the repaired code gives), and names an
+    `.asyncio` that fails differently (or any other convention refused) "conventions" -/
+example : specClause fakeEnv
+    [{ op := .construct 0 fakeSpec, res := .made, peeks := [some { id := .orig 0, tag := .orig }] },
+     { op := .enter 0, res := .entered tP, peeks := [some tP] },
+     { op := .call 0 [1] [], res := .called (List.replicate 4 (okF [instTok])), peeks := [some tP] }] = "ok" := by decide
+example : specClause fakeEnv
+    [{ op := .construct 0 fakeSpec, res := .made, peeks := [some { id := .orig 0, tag := .orig }] },
+     { op := .enter 0, res := .entered tP, peeks := [some tP] },
+     { op := .call 0 [1] [], res := .called [okF [instTok], okF [instTok], okF [instTok], { okF [instTok] with out := .raised .typeError }],
+       peeks := [some tP] }] = "conventions@call" := by decide
+example : specClause fakeEnv
+    [{ op := .construct 0 fakeSpec, res := .made, peeks := [some { id := .orig 0, tag := .orig }] },
+     { op := .enter 0, res := .entered tP, peeks := [some tP] },
+     { op := .call 0 [1] [], res := .called [okF [instTok], { okF [instTok] with out := .raised .runtimeError }, okF [instTok], okF [instTok]],
+       peeks := [some tP] }] = "conventions@call" := by decide
+/-- the same failure on a module function (what seeded change C19-9 produces) is named apart -/
+example : specClause envM
+    [{ op := .construct 0 fakeSpec, res := .made, peeks := [some { id := .orig 0, tag := .orig }] },
+     { op := .enter 0, res := .entered tP, peeks := [some tP] },
+     { op := .call 0 [1] [], res := .called [okF [], okF [], okF [], { okF [] with out := .raised .runtimeError }],
+       peeks := [some tP] }] = "asyncio-mode-reaches-replacement/direct@call" := by decide
+
+/-! ### shape and frame are demanded of every observation, also after taint (second audit, N11 / R5) -/
+private def tO : Option Tok := some { id := .orig 0, tag := .orig }
+private def tGv : Tok := { id := .given 0, tag := .asis }
+private def cO (r : Repl) : PSpec :=
+  { target := 0, repl := r, create := false, autospecNone := false, viaObject := false, behav := .ret 5 }
+/-- REJECTED (the audit's W6): re-entering an open patcher "answers" with something `__enter__` cannot answer -/
+example : specClause envM
+    [{ op := .construct 0 (cO .callobj), res := .made, peeks := [tO] },
+     { op := .enter 0, res := .entered tGv, peeks := [some tGv] },
+     { op := .enter 0, res := .unit, peeks := [] },
+     { op := .exit 0 false, res := .made, peeks := [none, none, none] }] = "shape@enter" := by decide
+/-- REJECTED: after the taint, an `__exit__` that answers like a constructor / a store with the wrong number of hosts -/
+example : specClause envM
+    [{ op := .construct 0 (cO .callobj), res := .made, peeks := [tO] },
+     { op := .enter 0, res := .entered tGv, peeks := [some tGv] },
+     { op := .enter 0, res := .entered tGv, peeks := [some tGv] },
+     { op := .exit 0 false, res := .made, peeks := [none, none, none] }] = "shape@exit" := by decide
+/-- REJECTED: after the taint, a CALL (a look, a re-binding, a construction) that changes what a host holds -/
+example : specClause envM
+    [{ op := .construct 0 (cO .callobj), res := .made, peeks := [tO] },
+     { op := .enter 0, res := .entered tGv, peeks := [some tGv] },
+     { op := .enter 0, res := .entered tGv, peeks := [some tGv] },
+     { op := .call 0 [] [], res := .called (List.replicate 4 { out := .ok 5, calls := [] }), peeks := [tO] }]
+    = "frame@call" := by decide
+example : specClause envM
+    [{ op := .construct 0 (cO .callobj), res := .made, peeks := [tO] },
+     { op := .enter 0, res := .entered tGv, peeks := [some tGv] },
+     { op := .enter 0, res := .entered tGv, peeks := [some tGv] },
+     { op := .peek, res := .unit, peeks := [none] }] = "frame@peek" := by decide
+/-- ACCEPTED after the taint: what the model itself does with the doubly entered patcher (unittest.mock's business) -/
+example : spec envM (run envM [.construct 0 (cO .callobj), .enter 0, .enter 0, .exit 0 false, .call 0 [] [], .exit 0 false,
+    .peek]) = true := C19_spec_holds_module_level envM _ rfl (by decide)
+/-- REJECTED (the audit's W10): a call that answers with no outcome at all - also on an UNPATCHED target -/
+example : specClause envM [{ op := .call 0 [1] [], res := .called [], peeks := [tO] }] = "shape@call" := by decide
+/-- ... and on a non-callable replacement -/
+example : specClause envM
+    [{ op := .construct 0 (cO .value), res := .made, peeks := [tO] },
+     { op := .enter 0, res := .entered tGv, peeks := [some tGv] },
+     { op := .call 0 [1] [], res := .called [{ out := .raised .typeError, calls := [] }], peeks := [some tGv] }]
+    = "shape@call" := by decide
+
+/-! ### further instantiations (second audit: theorems that had no example) -/
+private def ptF : Patcher := { spec := cO .func, new := maybeWrapNew 3 (cO .func) }
+/-- `C19_conventions_agree_partial` on a method-like access path with an ordinary (mode-insensitive) function -/
+example : (conv (installedObj ptF 3 0) .inst .yield [1, 2] [(0, 9)]).calls =
+    [{ callee := .given 3, args := instTok :: [1, 2], kw := [(0, 9)] }] :=
+  (C19_conventions_agree_partial 3 0 (cO .func) ptF Defaults.current rfl .inst [1, 2] [(0, 9)] [instTok] (by decide) (by decide)
+    .yield .asyncio).2.2
+example : (installedObj ptF 3 0).tok = { id := .made 3 0, tag := .pair } :=
+  C19_installed_object 3 0 (cO .func) ptF Defaults.current rfl
+/-- `C19_store_tracks_innermost` on a disciplined, NOT closed history with two open patches of one target -/
+private def h2open : List Op := [.construct 0 (cO .func), .construct 1 (cO .callobj), .enter 0, .start 1]
+example : ((final envM h2open).store 0).map Obj.tok = some { id := .given 1, tag := .asis } := by decide
+example : (final envM h2open).store 0 = expectAt envM.initStore (final envM h2open).stack 0 :=
+  C19_store_tracks_innermost envM h2open (by decide) 0
+
 /-! ### what `__enter__` installs is checked for EVERY replacement kind (audit item B4) -/
 private def envA : Env := { targets := [{ kind := .asyncFn .func, host := .loc, via := .plain }] }
 private def spA (r : Repl) (b : Behav := .ret 5) : PSpec :=
@@ -689,7 +893,8 @@ namespace AsynqModel.Mock.EnterFail
     first) - and every activation style, each with its own protocol for a failing `__enter__` (PEP 343 `with`,
     ExitStack of the decorators, `start()` registering only after success, `stop()` / `stopall()` seeing only registered
     patchers): if the block runs the product is in place, and the original is back afterwards.
-    (A finite table: 3 products x 5 styles, closed by evaluation of the protocol model.) -/
+    (A finite table: 3 products x 5 styles, closed by evaluation of the protocol model; the outcome is the same in all
+    five styles - `C19_enter_failure_style_irrelevant` - so it has 3 distinct rows.) -/
 theorem C19_enter_failure_restores (prod : Product) (style : Style) :
     spec (runCurrent prod style) = true ∧ (runCurrent prod style).after = Held.orig ∧
       ((runCurrent prod style).entered = true ↔ prod ≠ .rejecting) := by
@@ -707,6 +912,12 @@ theorem C19_enter_failure_needs_undo (style : Style) :
 theorem C19_enter_undo_only_matters_on_failure (prod : Product) (style : Style) (h : prod ≠ .rejecting) :
     run false prod style = run true prod style := by
   cases prod <;> cases style <;> first | rfl | exact absurd rfl h
+
+/-- the OUTCOME does not depend on the activation style (the styles differ in their intermediate protocol states only):
+    the table of `C19_enter_failure_restores` has 3 distinct rows (one per product), not 15 -/
+theorem C19_enter_failure_style_irrelevant (undo : Bool) (prod : Product) (style style' : Style) :
+    run undo prod style = run undo prod style' := by
+  cases undo <;> cases prod <;> cases style <;> cases style' <;> rfl
 
 /-! non-vacuity: the observer of this family accepts the good outcome, rejects a leak and rejects a block that ran
     without the product in place; the protocol model distinguishes the styles' intermediate states -/
